@@ -397,7 +397,7 @@ func driveShard(ctx *context, rs runSpec, bin string, ag *aggregate, shard, nsha
 		// confirm by re-running that case alone in a fresh process with a generous budget
 		per := ctx.p.perCase
 		if per == 0 {
-			per = 120 * time.Second
+			per = 180 * time.Second
 		}
 		fin2, _, tail2, to2 := runChild(ctx, rs, bin, ag, last, last+1, 0, 1, per, tag+"-confirm")
 		if !fin2 {
@@ -421,6 +421,9 @@ func driveShard(ctx *context, rs runSpec, bin string, ag *aggregate, shard, nsha
 			ag.mu.Unlock()
 		}
 		crashes++
+		if timedOut {
+			crashes++ // hangs cost a watchdog period each: half as many are followed up
+		}
 		limit := 4 // quick: a tree that crashes or hangs this often is broken, do not spend the budget on it
 		if ctx.tier == "thorough" {
 			limit = 40
